@@ -458,7 +458,7 @@ func identityOf(sc scenario, in *injection, msg string) string {
 
 func run(o checks.Opts) *report.Report {
 	rep := report.New("C10", "faults")
-	rep.Rule = "per scenario: reference run under the fair schedule (rounds of all reconciles in canonical order, workloads becoming ready, garbage collector) to quiescence gives the projected end state E*; then for EVERY request of EVERY pass of the reference run x {error before effect, effect with lost response, crash + restart with empty dynamic cache} and for every third-party drift {delete, modify spec, strip owners, drop cache label, lower revision} x managed object x round (for scenarios with delegated phases also deletion of each ObjectSetPhase object; scenario S9 changes the desired state six rounds in, so that earlier disturbances are repaired first and the change meets the repaired state): inject, continue fairly to quiescence (horizon 50 rounds), require projection == E* and a further round with zero state-changing requests; thorough adds pairs of faults; distinct = (scenario, rounds needed)"
+	rep.Rule = "per scenario: reference run under the fair schedule (rounds of all reconciles in canonical order, workloads becoming ready, garbage collector) to quiescence gives the projected end state E*; then for EVERY request of EVERY pass of the reference run x {error before effect, effect with lost response, crash + restart with empty dynamic cache, another actor's write to the call's target landing just before the call} and for every third-party drift {delete, modify spec, strip owners, drop cache label, lower revision} x managed object x round (for scenarios with delegated phases also deletion of each ObjectSetPhase object; scenario S9 changes the desired state six rounds in, so that earlier disturbances are repaired first and the change meets the repaired state): inject, continue fairly to quiescence (horizon 50 rounds), require projection == E* and a further round with zero state-changing requests; thorough adds pairs of faults; distinct = (scenario, rounds needed)"
 	scs := scenarios()
 	rep.Bounds["scenarios"] = len(scs)
 	n := 0
@@ -475,7 +475,7 @@ func run(o checks.Opts) *report.Report {
 		for r, shape := range ref.Shape {
 			for pi, p := range shape {
 				for i := 0; i < p.Reqs; i++ {
-					for _, fk := range []world.FaultKind{world.ErrBefore, world.LostResponse, world.Crash} {
+					for _, fk := range []world.FaultKind{world.ErrBefore, world.LostResponse, world.Crash, world.ForeignWrite} {
 						injs = append(injs, &injection{Round: r, Pass: pi, Req: i, Fault: fk})
 					}
 				}
